@@ -33,7 +33,8 @@ Lemma ge_closed a f GM w : dom a f GM ->
 Proof.
   intros D. pose proof (es_in a f GM D) as Hx. destruct D as (Ha & Hf & HG).
   unfold C16_ge_R; cbv zeta.
-  match goal with |- context [sqrt ?e] => replace e with (ges2 a f) by (unfold ges2; field; split; lra) end.
+  assert (Hb : 0 < a*(1-f)) by (apply Rmult_lt_0_compat; lra).
+  match goal with |- context [sqrt ?e] => replace e with (ges2 a f) by (unfold ges2; field; repeat split; lra) end.
   fold (es a f). set (x := es a f) in *.
   pose proof (gq0_pos x Hx) as Hq.
   destr_dec; [exfalso; lra|].
@@ -48,7 +49,8 @@ Lemma gp_closed a f GM w : dom a f GM ->
 Proof.
   intros D. pose proof (es_in a f GM D) as Hx. destruct D as (Ha & Hf & HG).
   unfold C16_gp_R; cbv zeta.
-  match goal with |- context [sqrt ?e] => replace e with (ges2 a f) by (unfold ges2; field; split; lra) end.
+  assert (Hb : 0 < a*(1-f)) by (apply Rmult_lt_0_compat; lra).
+  match goal with |- context [sqrt ?e] => replace e with (ges2 a f) by (unfold ges2; field; repeat split; lra) end.
   fold (es a f). set (x := es a f) in *.
   pose proof (gq0_pos x Hx) as Hq.
   destr_dec; [exfalso; lra|].
